@@ -88,10 +88,25 @@ def _prefetch_by_evaluation(chk, rid, bm):
         if bm.has(q):
             chk.saw(bm, q)
     helpers = fin.module_funcs(bm, dict(incidence.FUNCS))
-    for label, rows in PREFETCH_CASES:
+    cases = list(PREFETCH_CASES)
+    if chk.tier == "thorough":
+        # every 0/1 matrix of size 2 and 3 that contains a perfect matching (343 matrices), and the 4x4 ones with a full diagonal and at
+        # most 4 off-diagonal incidences
+        import itertools
+        for n_ in (2, 3):
+            for bits in itertools.product((0, 1), repeat=n_ * n_):
+                rows_ = [list(bits[i * n_:(i + 1) * n_]) for i in range(n_)]
+                if any(all(rows_[i][pm[i]] for i in range(n_)) for pm in itertools.permutations(range(n_))):
+                    cases.append((f"all {n_}x{n_} #{int(''.join(map(str, bits)), 2)}", rows_))
+        off = [(i, j) for i in range(4) for j in range(4) if i != j]
+        for k in range(0, 5):
+            for sel in itertools.combinations(off, k):
+                rows_ = [[1 if i == j or (i, j) in sel else 0 for j in range(4)] for i in range(4)]
+                cases.append((f"4x4 diag+{sorted(sel)}", rows_))
+    for label, rows in cases:
         n = len(rows)
         eids = tuple(10 + i for i in range(n))
-        qids = tuple(20 + (3 * j + 1) % n if n > 1 else 20 for j in range(n))      # ids in an order different from the positions
+        qids = tuple(20 + (j + 1) % n for j in range(n))      # distinct ids in an order different from the positions (a rotation)
         key = f"incidences.blazer.prefetch[{label}]"
         try:
             out = helpers["prefetch"](incidence.IM(rows), eids=eids, qids=qids)
